@@ -837,6 +837,9 @@ func (fe *FnEnc) lockOp(mu Val, op string, pos token.Pos) {
 		top.sites["lock:"+k]++
 		return fmt.Sprintf("@%d", top.sites["lock:"+k])
 	}
+	if op == "lock" || op == "rlock" {
+		fe.bumpSections(key, ref)
+	}
 	switch op {
 	case "lock":
 		fe.check("lock:reentry", lab("reentry"), "(= "+st+" 0)", "Lock while this goroutine already holds the mutex (self-deadlock)", pos)
@@ -851,6 +854,18 @@ func (fe *FnEnc) lockOp(mu Val, op string, pos token.Pos) {
 		fe.check("lock:unlock", lab("unlock"), "(= "+st+" 1)", "RUnlock of a mutex not read-held", pos)
 		set("0")
 	}
+}
+
+// bumpSections counts the critical sections this call has opened on a mutex (ghost, per mutex address):
+// contracts read it as sections(mu), and "one section per operation" is how an exported method states that
+// what it reads and what it then writes are one atomic step (no check-then-act across a released lock).
+func (fe *FnEnc) bumpSections(key, ref string) {
+	s := fe.s
+	gk := "lock_sect_" + key
+	fe.g.ghostSorts[gk] = "(Array Int Int)"
+	cur := s.ghostGet(fe.mem, gk, "(Array Int Int)")
+	fe.mem.ghost[gk] = s.name("sc", "(Array Int Int)", "(store "+cur+" "+ref+" (+ (select "+cur+" "+ref+") 1))")
+	fe.recordMod([]string{"ghost:" + gk})
 }
 
 // lockKey names the mutex field an address denotes: <StructSort>.<field path>.
@@ -1129,6 +1144,16 @@ func (fe *FnEnc) useContractFn(ct *Contract, callee *ssa.Function, args []Val, r
 	}
 	// havoc assigns
 	fe.mem = pre.clone()
+	// "opt section=<mutex field>": the callee opens (and closes) one critical section on its receiver's mutex
+	if mu := ct.Opts["section"]; mu != "" && hasRecv && len(args) > 0 && args[0].T != nil {
+		rt0 := args[0].T
+		if p, ok := rt0.Underlying().(*types.Pointer); ok {
+			rt0 = p.Elem()
+		}
+		if args[0].Term != "" {
+			fe.bumpSections(mangle(types.TypeString(rt0, nil))+"_"+mu, args[0].Term)
+		}
+	}
 	fe.curArgs = args
 	for _, as := range ct.Assigns {
 		fe.havocLvalue(ev, as)
@@ -1314,7 +1339,7 @@ func (fe *FnEnc) calleeWritesCheck(ct *Contract, pos token.Pos) {
 		rt = p.Elem()
 	}
 	gd := fe.g.guardFor(rt)
-	if gd == nil {
+	if gd == nil || gd.Mutex == "none" {
 		return
 	}
 	// only abstract (ghost) state of guarded sub-objects is tracked: any ghost assigns counts as a write
